@@ -135,12 +135,12 @@ def gen_long(rng, rid, big=False):
     """long run: hundreds of overlapping points, Gaussian kernel, C in {10,100}, eps 1e-3 -> thousands of iterations, several
     periodic shrink events and (usually) the one-time un-shrink inside shrink(); recorded sparsely (tag LRUN)"""
     n = rng.randint(120, 420 if big else 260)
-    kind = "svm" if rng.random() < 0.75 else "box"
+    kind = "svm" if rng.random() < 0.85 else "box"
     sep = rng.choice([0.5, 0.7, 0.7, 1.0])
     y = [i % 2 for i in range(n)]
     if rng.random() < 0.3: rng.shuffle(y)
     x = [[rng.gauss(0, 1) + (sep if y[i] else -sep), rng.gauss(0, 1)] for i in range(n)]
-    C = rng.choice([10.0, 100.0, 100.0])
+    C = rng.choice([10.0, 100.0, 100.0, 100.0]) if kind == "svm" else rng.choice([10.0, 10.0, 100.0])
     return {"tag": "LRUN", "id": rid, "kind": kind, "sel": rng.choice(SVM_SEL if kind == "svm" else ["maxgain", "maxgain", "ws2"]), "shrink": 1,
             "matrix": rng.choice(["pd", "cd", "cd", "cf", "pdg"]), "cachesize": rng.choice([100000000, 100000000, 40 * n]), "kernel": "rbf",
             "gamma": rng.choice([0.5, 1.0, 1.0, 2.0]), "Cneg": C, "Cpos": C * rng.choice([1, 1, 1, 0.5]), "eps": 1e-3,
@@ -750,7 +750,7 @@ def main():
         for k in range(4000 if big else 600): cfgs.append(gen_run(ck.rng, "m%d" % k, big))
         for k in range(200 if big else 20): cfgs.append(gen_run(ck.rng, "x%d" % k, big, extreme=True))
         for k in range(1200 if big else 160): cfgs.append(gen_hist(ck.rng, "h%d" % k, big))
-        for k in range(60 if big else 12): cfgs.append(gen_long(ck.rng, "l%d" % k, big))
+        for k in range(100 if big else 24): cfgs.append(gen_long(ck.rng, "l%d" % k, big))
     res = []
     short = [c for c in cfgs if c["stream"] != "long"]; longs = [c for c in cfgs if c["stream"] == "long"]
     for p in range(0, len(short), 100):
